@@ -72,6 +72,20 @@ func genHeapCase(pos bool) func(t *rapid.T) HeapCase {
 			c.Spare = rapid.IntRange(0, 7).Draw(t, "spare")
 		}
 		c.Ops = rapid.SliceOfN(genHOp(kinds), 0, 60).Draw(t, "ops")
+		if c.Mode == "G" && rapid.IntRange(0, 7).Draw(t, "big") == 0 {
+			// big mode: hundreds of elements, bulk growth and shrinkage
+			c.UseData = true
+			n := rapid.IntRange(60, 300).Draw(t, "bigN")
+			c.Data = make([]int, n)
+			for i := range c.Data {
+				c.Data[i] = genVal(t, "bv")
+			}
+			for j := rapid.IntRange(1, 4).Draw(t, "nruns"); j > 0; j-- {
+				op := HOp{Kind: rapid.SampledFrom([]string{"addRun", "addRun", "popRun"}).Draw(t, "rk"), A: rapid.IntRange(0, 500).Draw(t, "ra")}
+				i := rapid.IntRange(0, len(c.Ops)).Draw(t, "rpos")
+				c.Ops = append(c.Ops[:i], append([]HOp{op}, c.Ops[i:]...)...)
+			}
+		}
 		if rapid.IntRange(0, 2).Draw(t, "structured") > 0 {
 			// construction: fill to >= 3 levels, disturb, then pop >= 3 times
 			var pre []HOp
